@@ -57,6 +57,37 @@ func checkTumble(c *core.Ctx) {
 		}
 	}
 	c.Decide(msOK, "TUMBLE", key+"/metadata", rcs[0].Call.Pos(), 1, "watermarks pass unchanged", "tumble must hand its metaSend to the source unchanged (watermarks pass through)")
+	// a window length that is not positive never reaches the source: time.Truncate(d) returns its receiver for d <= 0,
+	// so window_end = time + length <= time and no record lies inside its own window
+	{
+		d := "windowLength.Duration"
+		gi := newInterp(p, fn)
+		gi.ErrorsNil = true
+		gi.Hooks.Cond = func(st *absint.State, atom string) (bool, bool) {
+			atom = strings.ReplaceAll(atom, "execution.Expression.Evaluate(t.windowLength,ctx).0.Duration", d)
+			switch atom {
+			case "(0 == " + d + ")", "(" + d + " == 0)", "(" + d + " <= 0)", "(0 >= " + d + ")", "(" + d + " < 1)", "(1 > " + d + ")":
+				return true, true
+			case "(" + d + " > 0)", "(0 < " + d + ")", "(" + d + " >= 1)", "(1 <= " + d + ")", "(" + d + " != 0)", "(0 != " + d + ")":
+				return false, true
+			}
+			return false, false
+		}
+		started := false
+		gi.Hooks.Call = chainCall(func(st *absint.State, call *ast.CallExpr, callee string, recv absint.Val, args []absint.Val) (absint.Val, bool) {
+			if call == rcs[0].Call {
+				started = true
+			}
+			return nil, false
+		}, errorfHook)
+		gouts, gerr := runDecl(gi, fn, nil, "")
+		if gerr != nil {
+			c.Unknown("TUMBLE", key+"/window length positive", fn.Decl.Pos(), gerr.Error())
+		} else {
+			c.Decide(!started, "TUMBLE", key+"/window length positive", rcs[0].Call.Pos(), len(gouts), "with a window length of zero the source is never started",
+				"a zero (or negative) window_length is used unchecked: time.Truncate(d) returns the time itself for d <= 0, so window_start = time and window_end = time + length — the record is not inside its window and window_end - window_start is not a positive length")
+		}
+	}
 	in := newInterp(p, fn)
 	tcall := func(name string, recv absint.Val, args []absint.Val) absint.Val {
 		return absint.S(name + "(" + recv.Canon() + "," + args[0].Canon() + ")")
